@@ -7,6 +7,7 @@ from ..refmodel import dtl
 from ..refmodel.trees import T, shape_from_json
 from ete3 import Tree
 from superrec2.compute.reconciliation import reconcile_lca, reconcile_thl
+from superrec2.compute.exhaustive import reconcile_exhaustive
 from superrec2.model.reconciliation import ReconciliationInput, NodeEvent, EdgeEvent
 from superrec2.utils.trees import LowestCommonAncestor
 
@@ -123,6 +124,18 @@ def check_input(O, S, leafmap):
                     return ("thl_at_inf", f"general solver at hgt = inf, policy {policy}, costs {A.costs_to_json(costs)}: returns "
                                           f"{[(sorted(g[0].items(), key=str), g[1]) for g in got][:2]}, expected exactly the LCA "
                                           f"mapping {sorted(want.items())} at cost {wantc}"), True
+    # uniqueness as the package itself prices the alternatives: the exhaustive solver at hgt = inf and loss > 0 returns the LCA
+    # reconciliation and nothing else (small inputs)
+    if len(O.leaves) <= 3 and len(S.leaves) <= 3:
+        for costs in ((0, 1, INF, 1, 1), (0, 3, INF, 2, 1)):
+            inp6, onode6, snode6 = A.build_input(O, S, leafmap, costs)
+            try:
+                got6 = [A.mapping_of(o, onode6, snode6) for o in reconcile_exhaustive(inp6, A.POLICY["ALL"])]
+            except Exception as exc:
+                return ("exception", f"reconcile_exhaustive raised {type(exc).__name__}: {exc} at costs {A.costs_to_json(costs)}"), True
+            if got6 != [want]:
+                return ("not_unique", f"exhaustive solver at hgt = inf, costs {A.costs_to_json(costs)}: {len(got6)} optimal "
+                                      f"reconciliations {[sorted(g.items(), key=str) for g in got6][:3]}, expected only the LCA mapping"), True
     # the LCA reconciliation as it is handed on BY NAME: a partially labelled input (the last ancestor of each tree already
     # called O1 / S1, the others nameless), label_internal(), then the dictionary form - one entry per object node, the names
     # all different, each node at the name of its LCA species
